@@ -340,4 +340,85 @@ theorem C14_file_scan_sets_visible (n : Node) (op : Op) (j k : Nat) (G : Folder)
   · rw [folderEff_files, List.getElem?_map, hf]; rfl
   · rw [fileEff_visible, hc]; rfl
 
+
+/-! ## 2b. a folder's visible health changes only when a scan of it completes -/
+
+/-- A scan of folder `G` completes in step `op`: in a tick of a powered-on node, for a live folder, the whole-node scan
+fans out (instant scan) or the folder's own timed scan reaches its last step. -/
+def folderScanCompletes (n : Node) (op : Op) (G : Folder) : Bool :=
+  match op with
+  | .tick => n.powerPhase.power = .on && !G.deleted && (n.powerPhase.scanCd = 1 || G.scanCd = 1)
+  | _ => false
+
+theorem Folder.handle_visible (G : Folder) (r : ItemReq) : (G.handle r).1.visible = G.visible := by
+  cases r <;> simp only [Folder.handle, Folder.scan, Folder.repair, Folder.restore, Folder.corrupt] <;>
+    (repeat' split) <;> rfl
+
+theorem folderEff_visible (n : Node) (op : Op) (G : Folder) :
+    (folderEff n op G).visible =
+      if folderScanCompletes n op G then
+        (if G.scanCd = 1 then worstLive G.files else if anyLiveCorrupt G.files then .corrupt else G.visible)
+      else G.visible := by
+  cases op <;> simp only [folderEff, folderScanCompletes]
+  case tick =>
+    unfold folderTickEff Folder.tick
+    by_cases hon : n.powerPhase.power = .on
+    · by_cases hd : G.deleted = true
+      · by_cases hs : n.powerPhase.scanCd = 1
+        · simp [hon, hd, hs, Folder.instantScan_visible]
+        · simp [hon, hd, hs]
+      · have hd' : G.deleted = false := by simpa using hd
+        by_cases hs : n.powerPhase.scanCd = 1
+        · simp only [hon, hs, if_true, Folder.instantScan_deleted, hd', Bool.false_eq_true, if_false]
+          rw [(Folder.restoreTick_rest _).2.1, Folder.scanTick_visible, Folder.instantScan_scanCd,
+            Folder.instantScan_visible, Folder.instantScan_files]
+          simp only [hd', Bool.false_eq_true, if_false, worstLive_map_scan, true_and]
+          by_cases h2 : G.scanCd = 1 <;> simp [h2]
+        · simp only [hon, hs, if_true, if_false, hd', Bool.false_eq_true]
+          rw [(Folder.restoreTick_rest _).2.1, Folder.scanTick_visible]
+          by_cases h2 : G.scanCd = 1 <;> simp [h2]
+    · simp [hon]
+  case folder F r =>
+    simp only [Bool.false_eq_true, if_false]
+    split
+    · split
+      · exact G.handle_visible r
+      · rfl
+    · rfl
+  case fsRestoreFolder F =>
+    simp only [Bool.false_eq_true, if_false]
+    split
+    · split
+      · unfold Folder.restore; split <;> rfl
+      · rfl
+    · rfl
+  all_goals (simp only [Bool.false_eq_true, if_false]; try ((repeat' split) <;> rfl))
+
+/-- **C14 (folders, one step, any state).** A folder's visible health differs after an operation only if a scan of
+it completed in that step; the new value is then the worst health among its live files (timed scan) or CORRUPT
+because a live file is CORRUPT (whole-node scan). -/
+theorem C14_folder_visible_only_by_scan (n : Node) (op : Op) (j : Nat) (G G' : Folder)
+    (hG : n.folders[j]? = some G) (hG' : (n.apply op).folders[j]? = some G') (hne : G'.visible ≠ G.visible) :
+    folderScanCompletes n op G = true ∧
+      ((G.scanCd = 1 ∧ G'.visible = worstLive G.files) ∨
+       (G.scanCd ≠ 1 ∧ anyLiveCorrupt G.files = true ∧ G'.visible = .corrupt)) := by
+  rw [apply_folders, List.getElem?_map, hG] at hG'
+  simp only [Option.map_some, Option.some.injEq] at hG'
+  subst hG'
+  have h := folderEff_visible n op G
+  by_cases hc : folderScanCompletes n op G = true
+  · simp only [hc, if_true] at h
+    refine ⟨hc, ?_⟩
+    by_cases h2 : G.scanCd = 1
+    · simp only [h2, if_true] at h
+      exact Or.inl ⟨h2, h⟩
+    · simp only [h2, if_false] at h
+      by_cases h3 : anyLiveCorrupt G.files = true
+      · simp only [h3, if_true] at h
+        exact Or.inr ⟨h2, h3, h⟩
+      · simp only [h3, if_false] at h
+        exact absurd h hne
+  · simp only [hc, if_false] at h
+    exact absurd h hne
+
 end Primaite.Health
